@@ -704,8 +704,14 @@ class DataflowTransactionContext(ABC):  # pylint: disable=too-few-public-methods
     ) -> Any:
         livein_information = self._null_set(key)
 
+        path_context = self._path_contexts[key]
         for next_b in next_blocks_global(self._function, block):
-            livein_information = self._union(key, livein_information, liveout[next_b])
+            # a value is live along the edge only if the branch condition lets it take that edge
+            livein_information = self._union(
+                key,
+                livein_information,
+                self._intersection(key, liveout[next_b], path_context[next_b][block]),
+            )
 
         if (
             block.is_callsub_block
